@@ -230,6 +230,7 @@ import "github.com/google/gopacket"
 //@ invariant 0 [aes.padfill] 0 <= i && i <= padLength && forall(qk, 0, i, trailer[qk] == uint8(qk+1))
 //@ invariant 0 [aes.keep] forall(qk, 0, len(old(bufBytes(b))), bufBytes(b)[qk] == old(bufBytes(b)[qk]))
 //@ at NewCBCEncrypter assert [C03.aes-iv] window(arg[[]byte](1), bufBytes(b), 0, 16)
+//@ at NewCBCEncrypter assert [C03.aes-iv-fresh] randFills(arg[[]byte](1)) != old(randFills(arg[[]byte](1))) // every packet's IV is a draw of crypto/rand made for this packet
 //@ at CryptBlocks assert [C03.aes-inplace] window(arg[[]byte](1), bufBytes(b), 16, len(bufBytes(b))) && window(arg[[]byte](2), bufBytes(b), 16, len(bufBytes(b)))
 //@ at CryptBlocks assert [C03.aes-blocks] len(arg[[]byte](2)) == len(old(bufBytes(b))) + 16 - len(old(bufBytes(b)))%16
 //@ at PrependBytes assert [C03.aes-trailer] padLength == 15 - len(old(bufBytes(b)))%16 && len(bufBytes(b)) == len(old(bufBytes(b)))+padLength+1 &&
@@ -260,6 +261,12 @@ import "github.com/google/gopacket"
 //@ split s.Authenticated
 //@ requires [buf] bufSmall(b) && len(s.Signature) <= 64
 //@ invariant 0 [v2.padfill] 0 <= i && i <= int(s.Pad)
+//@ at AppendBytes assert [C03.v2-header-written] len(bufBytes(b)) == ite(s.PayloadType == PayloadTypeOEM, 18, 12) + len(old(bufBytes(b))) ==> bufBytes(b)[0] == 6 &&
+//@    bufBytes(b)[1] == uint8(s.PayloadType)|ite(s.Encrypted, uint8(0x80), uint8(0))|ite(s.Authenticated, uint8(0x40), uint8(0)) &&
+//@    le32(bufBytes(b), ite(s.PayloadType == PayloadTypeOEM, 8, 2)) == s.ID && le32(bufBytes(b), ite(s.PayloadType == PayloadTypeOEM, 12, 6)) == s.Sequence &&
+//@    le16(bufBytes(b), ite(s.PayloadType == PayloadTypeOEM, 16, 10)) == s.Length
+//@ at AppendBytes assert [C03.v2-trailer-tail] len(bufBytes(b)) == ite(s.PayloadType == PayloadTypeOEM, 18, 12) + len(old(bufBytes(b))) + int(s.Pad) + 2 ==>
+//@    bufBytes(b)[len(bufBytes(b))-1] == 0x07 && bufBytes(b)[len(bufBytes(b))-2] == s.Pad
 //@ at executeHash assert [C03.sig-hash] arg[hash.Hash](0) == s.IntegrityAlgorithm
 //@ at executeHash assert [C03.sig-range] aliases(arg[[]byte](1), bufBytes(b), 0, len(bufBytes(b)))
 //@ at executeHash assert [C03.sig-length] len(bufBytes(b)) == ite(s.PayloadType == PayloadTypeOEM, 18, 12) + len(old(bufBytes(b))) + int(s.Pad) + 2
@@ -272,11 +279,11 @@ import "github.com/google/gopacket"
 //@ ensures [C03.v2-ok] result == nil && bufValid(b)
 //@ ensures [C03.v2-length] opts.FixLengths ==> s.Length == uint16(len(old(bufBytes(b))))
 //@ ensures [C03.v2-len~] len(bufBytes(b)) == ite(s.PayloadType == PayloadTypeOEM, 18, 12) + len(old(bufBytes(b))) + ite(s.Authenticated, int(s.Pad) + 2 + len(s.Signature), 0)
-//@ ensures [C03.v2-header-type~] !s.Authenticated ==> bufBytes(b)[0] == 6 && bufBytes(b)[1] == uint8(s.PayloadType)|ite(s.Encrypted, uint8(0x80), uint8(0))|ite(s.Authenticated, uint8(0x40), uint8(0))
-//@ ensures [C03.v2-header-id~] !s.Authenticated ==> le32(bufBytes(b), ite(s.PayloadType == PayloadTypeOEM, 8, 2)) == s.ID
-//@ ensures [C03.v2-header-seq~] !s.Authenticated ==> le32(bufBytes(b), ite(s.PayloadType == PayloadTypeOEM, 12, 6)) == s.Sequence
-//@ ensures [C03.v2-header-len~] !s.Authenticated ==> le16(bufBytes(b), ite(s.PayloadType == PayloadTypeOEM, 16, 10)) == s.Length
-//@ ensures [C03.v2-oem~] !s.Authenticated && s.PayloadType == PayloadTypeOEM ==> le32(bufBytes(b), 2) == uint32(s.Enterprise) && le16(bufBytes(b), 6) == s.PayloadID
+//@ ensures [C03.v2-header-type] !s.Authenticated ==> bufBytes(b)[0] == 6 && bufBytes(b)[1] == uint8(s.PayloadType)|ite(s.Encrypted, uint8(0x80), uint8(0))|ite(s.Authenticated, uint8(0x40), uint8(0))
+//@ ensures [C03.v2-header-id] !s.Authenticated ==> le32(bufBytes(b), ite(s.PayloadType == PayloadTypeOEM, 8, 2)) == s.ID
+//@ ensures [C03.v2-header-seq] !s.Authenticated ==> le32(bufBytes(b), ite(s.PayloadType == PayloadTypeOEM, 12, 6)) == s.Sequence
+//@ ensures [C03.v2-header-len] !s.Authenticated ==> le16(bufBytes(b), ite(s.PayloadType == PayloadTypeOEM, 16, 10)) == s.Length
+//@ ensures [C03.v2-oem] !s.Authenticated && s.PayloadType == PayloadTypeOEM ==> le32(bufBytes(b), 2) == uint32(s.Enterprise) && le16(bufBytes(b), 6) == s.PayloadID
 //@ ensures [frame.v2-self] s.PayloadType == old(s.PayloadType) && s.Encrypted == old(s.Encrypted) && s.Authenticated == old(s.Authenticated) && s.ID == old(s.ID) && s.Sequence == old(s.Sequence) && s.Enterprise == old(s.Enterprise) && s.PayloadID == old(s.PayloadID) && (!opts.FixLengths ==> s.Length == old(s.Length))
 //@ ensures [C03.v2-signed] s.Authenticated && opts.ComputeChecksums && !isnil(s.IntegrityAlgorithm) ==> len(s.Signature) == hSizeOf(s.IntegrityAlgorithm)
 // not claimed (solver budget, see DESIGN.md 14.7): ensures [C03.v2-signature~] s.Authenticated ==> forall(qk, 0, len(s.Signature), bufBytes(b)[len(bufBytes(b))-len(s.Signature)+qk] == s.Signature[qk])
